@@ -662,6 +662,9 @@ def parse_mir(text: str) -> Dict[str, Function]:
     i, n = 0, len(lines)
     while i < n:
         line = lines[i]
+        if (line.startswith("const ") or line.startswith("static ")) and not line.rstrip().endswith("{"):
+            i += 1          # one-line item (`const NAME: T = const VALUE;`): no body
+            continue
         if line.startswith("fn ") or line.startswith("const ") or line.startswith("static "):
             j = i + 1
             while j < n and lines[j] != "}":
